@@ -4,7 +4,8 @@
 // per-(key, attempt) fault oracle, virtual sleeps and WaitUntilReconciled probes.
 //
 // Ops (one output line each):
-//   cfg <s|b> <roundsize> <minb> <maxb> <prunei> <init 0|1>   start hive+reconciler (time unit: ms)
+//   cfg <s|b> <roundsize> <minb> <maxb> <prunei> <init 0|1> [<sset 0|1>]   start hive+reconciler (ms);
+//                                sset=1: objects carry a reconciler.StatusSet (entry "r") instead of a Status
 //   fail <k> <n>                 attempt n (0-based, per key) of an Update/Delete on key k fails
 //   hook <k> <n> <wkind> <k2>    during attempt n on key k perform user write <wkind> on k2
 //   hookf <k> <n> <wkind> <k2>   same, n counts only fresh attempts (from the change stream, not retries)
@@ -17,7 +18,7 @@
 // wkind: put (insert/update, new payload version, StatusPending) | del | reins (delete+insert in
 //   one txn) | stat (status-only change as a second reconciler would do; skipped while our status
 //   is Error) | statx (same, unguarded: exercises the Error-status fallback of fix 8844901) |
-//   ref (Done -> StatusRefreshing).
+//   ref (Done -> StatusRefreshing) | pend (re-mark pending, same payload: StatusPending()/Statuses.Pending()).
 package main
 
 import (
@@ -51,16 +52,32 @@ type obj struct {
 	Ver    int // payload version (the "contents")
 	Gen    int // harness-only: generation of the user write that made it pending (not payload)
 	Other  int // status of a second (imaginary) reconciler
-	Status reconciler.Status
+	Status reconciler.Status    // plain single-reconciler status (cfg sset=0)
+	Set    reconciler.StatusSet // multi-reconciler status set, our entry is "r" (cfg sset=1)
+	UseSet bool
 }
 
 func (o *obj) TableHeader() []string { return []string{"K", "Ver", "Status"} }
 func (o *obj) TableRow() []string {
-	return []string{fmt.Sprint(o.K), fmt.Sprint(o.Ver), o.Status.String()}
+	return []string{fmt.Sprint(o.K), fmt.Sprint(o.Ver), o.GetStatus().String()}
 }
 func (o *obj) Clone() *obj                          { o2 := *o; return &o2 }
-func (o *obj) GetStatus() reconciler.Status         { return o.Status }
-func (o *obj) SetStatus(s reconciler.Status) *obj   { o.Status = s; return o }
+func (o *obj) GetStatus() reconciler.Status {
+	if o.UseSet {
+		return o.Set.Get(rname)
+	}
+	return o.Status
+}
+func (o *obj) SetStatus(s reconciler.Status) *obj {
+	if o.UseSet {
+		o.Set = o.Set.Set(rname, s)
+	} else {
+		o.Status = s
+	}
+	return o
+}
+
+const rname = "r"
 
 var keyIndex = statedb.Index[*obj, uint64]{
 	Name:       "k",
@@ -75,6 +92,7 @@ type config struct {
 	minb, maxb       int
 	prunei           int
 	init             bool
+	sset             bool // objects carry a reconciler.StatusSet instead of a single Status
 }
 
 type wr struct {
@@ -301,7 +319,7 @@ func (e *eng) call(op string, txn statedb.ReadTxn, rev statedb.Revision, ob *obj
 	if isUpd {
 		// C15: objects that are not pending/refreshing are not updated, except as retries
 		if found && cur.Gen == ob.Gen {
-			switch cur.Status.Kind {
+			switch cur.GetStatus().Kind {
 			case reconciler.StatusKindDone:
 				e.flag("C15", "update-of-done-object")
 			case reconciler.StatusKindError:
@@ -316,7 +334,7 @@ func (e *eng) call(op string, txn statedb.ReadTxn, rev statedb.Revision, ob *obj
 				}
 			}
 		}
-		if !ob.Status.IsPendingOrRefreshing() {
+		if !ob.GetStatus().IsPendingOrRefreshing() {
 			e.flag("C15", "update-given-non-pending-object")
 		}
 	}
@@ -441,9 +459,13 @@ func (e *eng) doWrite(kind string, k uint64) {
 	case "put":
 		e.ver++
 		e.gen++
-		o := &obj{K: k, Ver: e.ver, Gen: e.gen, Status: reconciler.StatusPending()}
+		o := e.newObj(k)
 		if found {
 			o.Other = old.Other
+			if e.cfg.sset {
+				// as a user of StatusSet does: keep the set, mark everything pending again
+				o.Set = old.Set.Pending()
+			}
 		}
 		e.table.Insert(wtxn, o)
 		rev := e.table.Revision(wtxn)
@@ -469,14 +491,14 @@ func (e *eng) doWrite(kind string, k uint64) {
 		}
 		e.ver++
 		e.gen++
-		e.table.Insert(wtxn, &obj{K: k, Ver: e.ver, Gen: e.gen, Status: reconciler.StatusPending()})
+		e.table.Insert(wtxn, e.newObj(k))
 		rev := e.table.Revision(wtxn)
 		e.userRevs[rev] = true
 		e.changes = append(e.changes, change{k, e.gen, rev, "put", rev})
 		e.want[k], e.wantGen[k] = e.ver, e.gen
 		commit = true
 	case "stat", "statx":
-		if found && (kind == "statx" || old.Status.Kind != reconciler.StatusKindError) {
+		if found && (kind == "statx" || old.GetStatus().Kind != reconciler.StatusKindError) {
 			o := old.Clone()
 			o.Other++
 			e.table.Insert(wtxn, o)
@@ -490,11 +512,29 @@ func (e *eng) doWrite(kind string, k uint64) {
 			commit = true
 		}
 	case "ref":
-		if found && old.Status.Kind == reconciler.StatusKindDone {
+		if found && old.GetStatus().Kind == reconciler.StatusKindDone {
 			e.gen++
 			o := old.Clone()
 			o.Gen = e.gen
-			o.Status = reconciler.StatusRefreshing()
+			o.SetStatus(reconciler.StatusRefreshing())
+			e.table.Insert(wtxn, o)
+			rev := e.table.Revision(wtxn)
+			e.userRevs[rev] = true
+			e.changes = append(e.changes, change{k, e.gen, rev, "ref", rev})
+			e.wantGen[k] = e.gen
+			commit = true
+		}
+	case "pend":
+		// the user re-marks the object pending without changing the payload
+		if found {
+			e.gen++
+			o := old.Clone()
+			o.Gen = e.gen
+			if e.cfg.sset {
+				o.Set = o.Set.Pending()
+			} else {
+				o.Status = reconciler.StatusPending()
+			}
 			e.table.Insert(wtxn, o)
 			rev := e.table.Revision(wtxn)
 			e.userRevs[rev] = true
@@ -512,6 +552,18 @@ func (e *eng) doWrite(kind string, k uint64) {
 	} else {
 		wtxn.Abort()
 	}
+}
+
+// newObj: a fresh object for key k with the next payload version, pending
+func (e *eng) newObj(k uint64) *obj {
+	o := &obj{K: k, Ver: e.ver, Gen: e.gen}
+	if e.cfg.sset {
+		o.UseSet = true
+		o.Set = reconciler.NewStatusSet()
+	} else {
+		o.Status = reconciler.StatusPending()
+	}
+	return o
 }
 
 // ---------------------------------------------------------------- lifecycle
@@ -587,9 +639,9 @@ func (e *eng) tableOracle() {
 		if g, ok := e.wantGen[o.K]; ok && g != o.Gen {
 			e.flag("C15", "payload-or-generation-clobbered")
 		}
-		switch o.Status.Kind {
+		switch o.GetStatus().Kind {
 		case reconciler.StatusKindDone, reconciler.StatusKindError:
-			wantOK := o.Status.Kind == reconciler.StatusKindDone
+			wantOK := o.GetStatus().Kind == reconciler.StatusKindDone
 			seen := false
 			for _, c := range e.hist {
 				if (c.op == "U" || c.op == "UB") && c.k == o.K && c.gen == o.Gen && c.ver == o.Ver && c.ok == wantOK {
@@ -666,11 +718,11 @@ func (e *eng) Op(f []string, line string, out *hx.Out) {
 	}
 	switch f[0] {
 	case "cfg":
-		if e.started || len(f) != 7 {
+		if e.started || (len(f) != 7 && len(f) != 8) {
 			out.P("M:%s E cfg", tags)
 			return
 		}
-		e.cfg = config{batch: f[1] == "b", rs: atoi(f[2]), minb: atoi(f[3]), maxb: atoi(f[4]), prunei: atoi(f[5]), init: f[6] == "1"}
+		e.cfg = config{batch: f[1] == "b", rs: atoi(f[2]), minb: atoi(f[3]), maxb: atoi(f[4]), prunei: atoi(f[5]), init: f[6] == "1", sset: len(f) == 8 && f[7] == "1"}
 		e.start()
 		e.quiesce()
 		out.P("M:%s cfg rev=%d calls=%s%s", tags, e.tableRev(), e.callsStr(), e.takeBad())
@@ -721,7 +773,7 @@ func (e *eng) Op(f []string, line string, out *hx.Out) {
 		e.quiesce()
 		var parts []string
 		for o := range e.table.All(e.db.ReadTxn()) {
-			parts = append(parts, fmt.Sprintf("k%d:v%d:%s", o.K, o.Ver, kindStr(o.Status)))
+			parts = append(parts, fmt.Sprintf("k%d:v%d:%s", o.K, o.Ver, kindStr(o.GetStatus())))
 		}
 		out.P("M:C14,C15 rev=%d [%s]%s", e.tableRev(), strings.Join(parts, " "), e.takeBad())
 	case "wur":
@@ -877,7 +929,7 @@ func (e *eng) final(out *hx.Out) {
 	for o := range e.table.All(e.db.ReadTxn()) {
 		got[o.K] = o.Ver
 		live = append(live, fmt.Sprintf("k%d:v%d", o.K, o.Ver))
-		if o.Status.Kind != reconciler.StatusKindDone {
+		if o.GetStatus().Kind != reconciler.StatusKindDone {
 			conv = false
 			e.flag("C14", "live-object-not-done")
 		}
